@@ -66,7 +66,10 @@ DATES = [b'01-Jan-0001 00:00:00 +0000', b'01-Jan-0001 00:00:00 +0100',
          b'01-Jan-0099 00:00:00 +0000', b'01-Jan-0999 00:00:00 +0000',
          b'01-Jan-1000 00:00:00 +0000', b' 1-Jan-2020 00:00:00 +0000',
          b'29-Feb-2000 23:59:60 +0000', b'01-Jan-1970 00:00:00 +0000',
-         b'01-Jan-1969 23:59:59 -0000', b'19-Jan-2038 03:14:08 +0000']
+         b'01-Jan-1969 23:59:59 -0000', b'19-Jan-2038 03:14:08 +0000',
+         # zones outside the grammar that strptime('%z') accepts
+         b'01-Jan-2020 00:00:00 +05:30', b'01-Jan-2020 00:00:00 +05:30:15',
+         b'01-Jan-2020 00:00:00 +053015', b'01-Jan-2020 00:00:00 Z']
 
 
 def date_scripts():
@@ -146,6 +149,9 @@ HEADER_VALUES = [
     b'attachment; filename="a\nb"', b'attachment; filename=\xe9',
     b'text/plain; a=1; b="2"; c=\xe9', b'Mon, 1 Jan 2020 00:00:00 +0000',
     b'{5}', b'NIL', b')', b'(', b'a]b', b'~{3}',
+    # an encoded word that decodes to a lone surrogate; a disposition with
+    # a parameter that needs quoting
+    b'=?utf-7?Q?+2AA-?= <a@b>', b'attachment; filename="x y"', b'inline',
 ]
 
 
@@ -169,7 +175,9 @@ def header_scripts():
 
 
 LEAVES = [b'Content-Type: text/plain\r\n\r\ntext\r\n',
-          b'Content-Type: application/x-o\r\n\r\nother\r\n']
+          b'Content-Type: application/x-o\r\n\r\nother\r\n',
+          # a part without header and body (two boundary lines in a row)
+          b'']
 
 
 def shapes(depth):
@@ -196,9 +204,24 @@ def shapes(depth):
                        + b'\r\n' + b_ + b'\r\n--' + tok + b'--\r\n')
 
 
+EXTRA_SHAPES = [
+    # boundary lines in a row: parts with neither header nor body
+    b'Content-Type: multipart/mixed; boundary=b\r\n\r\n--b\r\n--b\r\n\r\nx\r\n--b--\r\n',
+    b'Content-Type: multipart/mixed; boundary=b\r\n\r\n--b\r\n--b\r\n--b--\r\n',
+    b'Content-Type: multipart/mixed; boundary=b\r\n\r\n--b\r\n--b--\r\n',
+    b'Content-Type: multipart/mixed; boundary=b\r\n\r\n--b\r\n'
+    b'Content-Type: message/rfc822\r\n\r\n--b--\r\n',
+    b'Content-Type: multipart/mixed; boundary=b\r\n\r\n--b\r\n'
+    b'Content-Type: text/plain\r\n--b--\r\n',
+    b'Content-Type: message/rfc822\r\n\r\n',
+    b'Content-Type: message/rfc822\r\n',
+    b'Content-Type: text/plain',
+]
+
+
 def shape_scripts(depth):
     seen = set()
-    for m in shapes(depth):
+    for m in itertools.chain(shapes(depth), EXTRA_SHAPES):
         if m in seen:
             continue
         seen.add(m)
